@@ -195,6 +195,7 @@ class Model(object):
         self.cats = []           # [name, {kind: {name: spec}}]
         self.unknown = {k: None for k in KINDS}
         self.frozen = False
+        self.auto = set()        # names the database generated itself (whatever they look like)
 
     def names(self):
         return [c[0] for c in self.cats]
@@ -268,7 +269,7 @@ def snapshot(db, probes):
     scratch = db.categories()
     scratch.reverse()
     scratch.append('zz-scratch')
-    snap = {'categories': list(cats), 'frozen': bool(db.frozen),
+    snap = {'categories': list(cats), 'frozen': bool(getattr(db, 'frozen', False)),
             'categories_is_a_copy': list(db.categories()) == list(cats),
             'lookup': {}, 'iter': {}, 'iter_all': {}, 'iter_rev': {}, 'specials': {}}
     getters = {'macros': db.get_macro_spec, 'environments': db.get_environment_spec,
@@ -492,11 +493,12 @@ def execute(program):
                             got = db.categories()
                             if len(got) != len(names) + 1 or pos >= len(got) or \
                                got[:pos] != names[:pos] or got[pos + 1:] != names[pos:] or \
-                               got[pos] in names or not str(got[pos]).startswith(AUTO_PREFIX):
+                               got[pos] in names or got[pos] in CATS or not isinstance(got[pos], str):
                                 raise Violation('categories-order', op_index=opi, db=target,
                                                 observed=got,
                                                 expected=names[:pos] + ['<auto>'] + names[pos:])
                             cat = got[pos]
+                            m.auto.add(cat)
                             stats.inc('probe:auto-category-added')
                         m.cats.insert(pos, [cat, {k: dict((getattr(s, NAME_ATTR[k]), s)
                                                           for s in specs[k]) for k in KINDS}])
@@ -570,7 +572,7 @@ def execute(program):
                             nm.cats.append([c, {k: (dict(d[k]) if (not which or k in which) else {})
                                                 for k in KINDS}])
                         nm.unknown = dict(m.unknown)
-                        nm.frozen = bool(new_db.frozen)     # not specified; adopted
+                        nm.frozen = bool(getattr(new_db, 'frozen', False))     # not specified; adopted
                         want_cls = sub_db_class() if use_cls else type(db)
                         if type(new_db) is not want_cls:
                             raise Violation('derived-db-first-class', op_index=opi, db=target,
@@ -582,7 +584,8 @@ def execute(program):
                         if depth > 0:
                             nontrivial = True
                             stats.inc('probe:filter-of-derived')
-                        if any(c.startswith(AUTO_PREFIX) for c in nm.names()):
+                        nm.auto = set(c for c in m.auto if c in nm.names())
+                        if nm.auto:
                             stats.inc('probe:filter-keeps-auto-category')
                 # ---------------------------------------------------- extend
                 elif kind == 'extend':
@@ -643,7 +646,7 @@ def execute(program):
                             newd = {k: dict((getattr(s, NAME_ATTR[k]), s) for s in specs[k])
                                     for k in KINDS}
                             got = new_db.categories()
-                            if cat is None and names and names[0].startswith(AUTO_PREFIX) \
+                            if cat is None and names and names[0] in m.auto \
                                and got == names:
                                 # merged into the leading auto-generated category
                                 first = {k: dict(m.cats[0][1][k]) for k in KINDS}
@@ -655,7 +658,7 @@ def execute(program):
                             else:
                                 if cat is None:
                                     if len(got) != len(names) + 1 or got[1:] != names or \
-                                       got[0] in names or not str(got[0]).startswith(AUTO_PREFIX):
+                                       got[0] in names or got[0] in CATS or not isinstance(got[0], str):
                                         raise Violation('categories-order', op_index=opi, db=target,
                                                         observed=got, expected=['<auto>'] + names)
                                     newcat = got[0]
@@ -663,10 +666,13 @@ def execute(program):
                                     newcat = cat
                                 nm.cats = [[newcat, newd]] + \
                                     [[c, {k: dict(d[k]) for k in KINDS}] for c, d in m.cats]
+                            nm.auto = set(m.auto)
+                            if cat is None and nm.cats and nm.cats[0][0] not in names:
+                                nm.auto.add(nm.cats[0][0])
                             nm.unknown = dict(m.unknown)
                             for k, s in unk_specs.items():
                                 nm.unknown[k] = s
-                            nm.frozen = bool(new_db.frozen)     # adopted, checked behaviourally later
+                            nm.frozen = bool(getattr(new_db, 'frozen', False))     # adopted, checked behaviourally later
                             want_cls = sub_db_class() if use_cls else type(db)
                             if type(new_db) is not want_cls:
                                 raise Violation('derived-db-first-class', op_index=opi, db=target,
